@@ -19,7 +19,10 @@ TECHNIQUE = ('abstract evaluation of each look-up to a guarded normal form: the 
              'be non-strict; ordering enumeration of the sentinel guards; inventory of unchecked subscripts; the apex '
              'bisection by inductive invariants in a linear-constraint domain (engine F)')
 DECIDED = [
-    'R1 index_at_distance is an ascending scan returning the first i with distance >= d (default -1); the helper '
+    'R1 index_at_distance, whatever its shape (generator scan, loop, bisection over the row distances), returns for every '
+    'trajectory length the index of the first row with distance >= the query and -1 exactly when the last row is short '
+    'of it, with every index in range (engine F: proof from inferred invariants / the exact meaning of the scan, '
+    'counterexamples from a finite family); the helper '
     'predicates are `distance in the caller\'s unit >= query` and `time - query >= 0`; BisectWrapper exposes the '
     'predicate of the element; the search is bisect_left(.., True, 0, len) (or bisect_right(.., False, ..)) re-checked '
     'for idx >= len and for a false predicate; nearest-time compares neighbours with <= (earlier row wins ties) and the '
@@ -65,6 +68,135 @@ def _is_ge(ev, v, key_sym: str, q_sym: str) -> Optional[str]:
             or not ck.get(0, A.rf(0)).is_zero():
         return f'normalises to {t!r}: the key side is not an increasing function of the row\'s own {key_sym}'
     return None
+
+
+def check_index_at_distance(prog: Program, rep, rule: str) -> bool:
+    """index_at_distance decided for every trajectory length (engine F), whatever its shape - a generator scan, a loop,
+    a bisection over the distances: on rows in non-decreasing distance the value returned is the index of the first row
+    whose distance is at least the query, and -1 exactly when no row qualifies; every index is in range.  Row distance
+    and query must be read on one scale (both as quantities, both raw, or both in one unit).  Returns True when the
+    function was decided here (proved or refuted)."""
+    from fractions import Fraction
+    from .. import loopproof as L
+    td = prog.module(C.M_TD)
+    iad = prog.func(C.M_TD, 'HitResult.index_at_distance')
+    me, qn = iad.positional[0], iad.positional[1]
+    scales = set()
+
+    def scale_of(e):
+        """(base expression, scale tag) for  x | x.raw_value | float(x) | x >> U"""
+        if isinstance(e, ast.Attribute) and e.attr == 'raw_value':
+            return e.value, 'raw'
+        if isinstance(e, ast.Call) and isinstance(e.func, ast.Name) and e.func.id == 'float' and len(e.args) == 1:
+            return e.args[0], 'raw'
+        if isinstance(e, ast.BinOp) and isinstance(e.op, ast.RShift):
+            return e.left, 'in ' + norm(e.right)
+        return e, 'quantity'
+
+    def is_rows(e) -> bool:
+        return isinstance(e, ast.Attribute) and e.attr == 'trajectory' and isinstance(e.value, ast.Name) and e.value.id == me
+
+    # locals that name the list of row distances: [row.distance<scale> for row in self.trajectory]
+    aliases = {}
+    for n in ast.walk(iad.node):
+        if isinstance(n, ast.Assign) and len(n.targets) == 1 and isinstance(n.targets[0], ast.Name) \
+                and isinstance(n.value, ast.ListComp) and len(n.value.generators) == 1 and not n.value.generators[0].ifs \
+                and is_rows(n.value.generators[0].iter) and isinstance(n.value.generators[0].target, ast.Name):
+            base, sc = scale_of(n.value.elt)
+            if isinstance(base, ast.Attribute) and base.attr == 'distance' and isinstance(base.value, ast.Name) \
+                    and base.value.id == n.value.generators[0].target.id:
+                aliases[n.targets[0].id] = sc
+
+    def array_of(e):
+        if is_rows(e):
+            return '$rows'
+        if isinstance(e, ast.Name) and e.id in aliases:
+            scales.add(('row', aliases[e.id]))
+            return '$rows.distance'
+        return None
+
+    def scalar_of(e, tr):
+        base, sc = scale_of(e)
+        if isinstance(base, ast.Name) and base.id == qn:
+            scales.add(('query', sc))
+            return ('var', '$q')
+        if isinstance(base, ast.Attribute) and base.attr == 'distance' and isinstance(base.value, ast.Subscript) \
+                and is_rows(base.value.value) and not isinstance(base.value.slice, ast.Slice):
+            scales.add(('row', sc))
+            return ('elem', '$rows.distance', tr.expr(base.value.slice))
+        return None
+
+    roles = L.Roles(arrays={'$rows': None, '$rows.distance': 'nonstrict'}, reals=['$q'], same_length=[('$rows', '$rows.distance')],
+                    array_of=array_of, scalar_of=scalar_of, skip_assign=list(aliases))
+    rep.assume('index_at_distance: rows in non-decreasing distance (the solver records them in order)')
+
+    def goal(ab, st, tag, v, node):
+        if tag != 'return':
+            return []
+        if v is None or v.kind != 'int':
+            return [(L.F_, f'line {node.lineno}: the value returned is not an index')]
+        r, q = v.lin, st.env['$q'].lin
+        n_ = ab.len_of('$rows')
+        zero, one = L.Lin.const(0), L.Lin.const(1)
+        d_r = L.Lin.var(ab.pr.elem_term('$rows.distance', r))
+        d_p = L.Lin.var(ab.pr.elem_term('$rows.distance', r - one))
+        d_l = L.Lin.var(ab.pr.elem_term('$rows.distance', n_.plus(-1)))
+        found = L.f_and(L.f_le(zero, r), L.f_le(r, n_.plus(-1)), L.f_le(q, d_r), L.f_or(L.f_eq(r, zero), L.f_lt(d_p, q)))
+        none = L.f_and(L.f_eq(r, L.Lin.const(-1)), L.f_or(L.f_eq(n_, zero), L.f_lt(d_l, q)))
+        return [(L.f_or(found, none), f'line {node.lineno}: the index returned is that of the first row with distance >= the '
+                                      f'query, or -1 when the last row is short of it')]
+
+    def inputs():
+        for n in range(0, 6):
+            shapes = [[Fraction(i) for i in range(n)]]
+            if n >= 3:
+                shapes.append([Fraction(0)] + [Fraction(1)] * (n - 2) + [Fraction(2)])     # a run of equal distances
+            for dist in shapes:
+                qs = {Fraction(-1), Fraction(n + 1)} | set(dist) | {x + Fraction(1, 2) for x in dist}
+                for q in sorted(qs):
+                    yield {'$rows': [None] * n, '$rows.distance': dist, '$q': q}
+
+    def oracle(inp, c, outcome):
+        dist, q = inp['$rows.distance'], inp['$q']
+        where = f'row distances {[str(x) for x in dist]}, query {q}'
+        if outcome[0] in ('raise', 'hang'):
+            return f'{where}: {outcome[1]}'
+        if outcome[0] != 'return':
+            return f'{where}: nothing returned'
+        want = next((i for i, x in enumerate(dist) if x >= q), -1)
+        if outcome[1] != want:
+            return f'{where}: returns {outcome[1]}, the first row at or beyond the query is {want}'
+        return None
+
+    try:
+        res = L.analyse_search(iad.node, roles, goal, inputs(), oracle)
+    except L.Unsupported as exc:
+        rep.undecided(rule, iad.where, 'index_at_distance (engine F)', f'outside the fragment: {exc}')
+        return False
+    row_sc = {s_ for k_, s_ in scales if k_ == 'row'}
+    q_sc = {s_ for k_, s_ in scales if k_ == 'query'}
+    if len(row_sc) != 1 or row_sc != q_sc:
+        rep.fail(rule, td.path, iad.node.lineno, iad.qualname, 'scale',
+                 f'the row distance is read as {sorted(row_sc)} and the query as {sorted(q_sc)}: not one scale')
+        return True
+    rep.extra['index_at_distance_proof'] = {'loops': res.loop_info, 'prover_calls': res.prover_calls,
+                                           'concrete_inputs': res.concrete_runs, 'concrete_inputs_not_readable': res.concrete_unknown,
+                                           'obligations': [{'text': L.pretty(o.text), 'status': o.status} for o in res.obligations][:20]}
+    unknown = [o for o in res.obligations if o.status != 'proved']
+    if res.witnesses:
+        rep.fail(rule, td.path, iad.node.lineno, iad.qualname, 'first-row',
+                 'counterexample: ' + res.witnesses[0] + (f'; unproved: {L.pretty(unknown[0].text)}' if unknown else ''))
+        return True
+    if not [o for o in res.obligations if o.tag == 'return'] or res.concrete_unknown == res.concrete_runs:
+        rep.undecided(rule, iad.where, 'index_at_distance (engine F)', 'not readable as an index search')
+        return False
+    for o in res.obligations:
+        where = f'{td.path}:{getattr(o.node, "lineno", iad.node.lineno)}'
+        if o.status == 'proved':
+            rep.ok(rule, where, L.pretty(o.text))
+        else:
+            rep.undecided(rule, where, L.pretty(o.text), 'not proved and no counterexample in the finite family')
+    return not unknown
 
 
 def check_apex(prog: Program, rep, rule: str) -> None:
@@ -215,6 +347,7 @@ def run(prog: Program, rep, thorough: bool) -> None:
     # ---- index_at_distance -------------------------------------------------------------------
     iad = prog.func(C.M_TD, 'HitResult.index_at_distance')
     rep.saw(iad)
+    decided_by_f = check_index_at_distance(prog, rep, 'C20.R1')
     problems = []
     gens = [n for n in ast.walk(iad.node) if isinstance(n, ast.GeneratorExp)]
     loops = [n for n in ast.walk(iad.node) if isinstance(n, ast.For)]
@@ -257,8 +390,8 @@ def run(prog: Program, rep, thorough: bool) -> None:
         default_ok = any(norm(r.value) == '-1' for r in rets if r.lineno > lp.lineno)
         if ifs and not any(isinstance(x, ast.Return) and norm(x.value) == idx_var for x in ifs[0].body):
             problems.append('the loop does not return the index of the first qualifying row')
-    else:
-        problems.append('neither a generator scan nor a loop')
+    elif not decided_by_f:
+        raise AnalysisError('index_at_distance is neither a generator scan nor a loop, and engine F cannot read it')
     if pred is not None and row_expr is not None:
         st = State()
         row = _row(ev, st, prog)
@@ -297,11 +430,13 @@ def run(prog: Program, rep, thorough: bool) -> None:
                 problems.append(f'the scan predicate `{txt}` {why}')
         except Undecided as exc:
             raise AnalysisError(f'index_at_distance predicate: {exc}') from exc
-    elif not problems:
+    elif not problems and not decided_by_f:
         problems.append('scan predicate not found')
     if default_ok is False:
         problems.append('the default is not -1')
-    if problems:
+    if decided_by_f and pred is None and not problems:
+        pass            # another shape, decided as a whole by engine F above
+    elif problems:
         rep.fail('C20.R1', td.path, iad.node.lineno, iad.qualname, 'index_at_distance', '; '.join(problems))
     else:
         rep.ok('C20.R1', iad.where, 'ascending scan, first i with distance >= d, default -1')
@@ -590,6 +725,10 @@ VARIANTS = [
     Variant('apex-test-reversed', 'break', [(HP, '        if trajectory_points[mid].height < trajectory_points[mid + 1].height:', '        if trajectory_points[mid].height >= trajectory_points[mid + 1].height:')], 'C20.R3'),
     Variant('twin-apex-compare-swapped', 'twin', [(HP, '        if trajectory_points[mid].height < trajectory_points[mid + 1].height:', '        if trajectory_points[mid + 1].height > trajectory_points[mid].height:')], None),
     Variant('twin-apex-loop-ne', 'twin', [(HP, '    left, right = 0, points_count - 1\n    while left < right:', '    left, right = 0, points_count - 1\n    while left != right:')], None, 'left <= right is invariant, so != is < (proved)'),
+    Variant('index-bisect-excludes-last-row', 'break', [(TDF, '        return next((i for i in range(len(self.trajectory))\n                     if self.trajectory[i].distance >= d), -1)', '        distances = [row.distance.raw_value for row in self.trajectory]\n        i = bisect_left(distances, float(d), 0, len(distances) - 1)\n        return i if i < len(distances) else -1'), (TDF, 'from dataclasses import dataclass, field\n', 'from bisect import bisect_left\nfrom dataclasses import dataclass, field\n')], 'C20.R1', 'seeded change C16/3: a query beyond the last row returns the last row'),
+    Variant('twin-index-bisect', 'twin', [(TDF, '        return next((i for i in range(len(self.trajectory))\n                     if self.trajectory[i].distance >= d), -1)', '        distances = [row.distance.raw_value for row in self.trajectory]\n        i = bisect_left(distances, float(d))\n        return i if i < len(distances) else -1'), (TDF, 'from dataclasses import dataclass, field\n', 'from bisect import bisect_left\nfrom dataclasses import dataclass, field\n')], None, 'a correct bisection: proved'),
+    Variant('twin-index-loop', 'twin', [(TDF, '        return next((i for i in range(len(self.trajectory))\n                     if self.trajectory[i].distance >= d), -1)', '        for i in range(len(self.trajectory)):\n            if self.trajectory[i].distance >= d:\n                return i\n        return -1')], None),
+    Variant('index-scan-strict', 'break', [(TDF, '                     if self.trajectory[i].distance >= d), -1)', '                     if self.trajectory[i].distance > d), -1)')], 'C20.R1', 'a row exactly at the query is skipped'),
     Variant('nearest-tie-strict', 'break', [(HP, '    if abs(value_getter(arr[before]) - target_value) <= abs(\n        value_getter(arr[after]) - target_value\n    ):', '    if abs(value_getter(arr[before]) - target_value) < abs(\n        value_getter(arr[after]) - target_value\n    ):')], 'C20.R1', '', 'pass'),
     Variant('index-at-distance-strict', 'break', [(TDF, 'if self.trajectory[i].distance >= d), -1)', 'if self.trajectory[i].distance > d), -1)')], 'C20.R1', 'positive control', 'caught'),
     Variant('helper-distance-strict', 'break', [(HP, 'lambda p: (p.distance >> distance_unit) >= distance', 'lambda p: (p.distance >> distance_unit) > distance')], 'C20.R1', 'positive control', 'caught'),
